@@ -43,7 +43,7 @@ Definition err_kind (e : rerr) : nat * nat :=
   | EBadFd n => (K_BADFD, n)
   | EOpenFail p ENOENT => (K_ENOENT, p)
   | EOpenFail p EEXIST => (K_EEXIST, p)
-  | EInvalidRedir => (K_INVALID, O)
+  | EInvalidRedir p => (K_INVALID, p)
   end.
 
 (** why a write through description [id] is refused *)
